@@ -1073,6 +1073,7 @@ package engine
 // the descent; every other node (including a selector with a compound base such as a.b.c or a().b) is
 // searched further, so a reference inside a longer chain is still found.
 //@ func usesNameAsTopLevel$1(n) (res)
+//@   requires typing: n.typ == dyn("*go/ast.SelectorExpr") ==> n.val != nil && (as("*go/ast.SelectorExpr", n.val).X.typ == dyn("*go/ast.Ident") ==> as("*go/ast.SelectorExpr", n.val).X.val != nil)
 //@   assigns used
 //@   ensures [C11] non-selectors-are-searched-further: n.typ != dyn("*go/ast.SelectorExpr") ==> res
 //@   ensures [C11] compound-selector-bases-are-searched-further: n.typ == dyn("*go/ast.SelectorExpr") && as("*go/ast.SelectorExpr", n.val).X.typ != dyn("*go/ast.Ident") ==> res
